@@ -1,8 +1,10 @@
 #!/usr/bin/env python3
 """copies the confirmed seeded changes from the scratch area into /verif/seeded/<id>/"""
 import glob, json, os, shutil
+ROUND = int(os.environ.get("ROUND", "1"))
+SUF = "" if ROUND == 1 else str(ROUND)
 rep = {}
-for f in ("/tmp/mut/verify_report.json",):
+for f in ("/tmp/mut/verify_report%s.json" % SUF,):
     if os.path.exists(f):
         rep.update(json.load(open(f)))
 head = os.popen("git -C /repo rev-parse --short HEAD").read().strip()
@@ -10,7 +12,7 @@ for mid, r in sorted(rep.items()):
     if not r.get("confirmed"):
         continue
     pid, n = mid.split("-")
-    src = "/tmp/mut/out/%s/%s" % (pid, n)
+    src = "/tmp/mut/out%s/%s/%d" % (SUF, pid, int(n) - 2 * (ROUND - 1))
     dst = "/verif/seeded/%s-%s" % (pid, n)
     os.makedirs(dst, exist_ok=True)
     for f in glob.glob(src + "/*"):
